@@ -474,10 +474,15 @@ MANIFEST = dict(
         "pad-mode table agreement (Literal == dispatch, placeholder mode skipped by both callers), evaluation-mode "
         "identity of random_shift, a structural interval argument for the random pad amounts (trunc(u*prop*len), u in "
         "[0,1)), and the truncating-slice rule: every slice of an index range to k entries is covered by construction "
-        "(extent is a max including k) or by a dominating guard bounding k by the lengths. Necessary conditions of C09 "
+        "(extent is a max including k) or by a dominating guard bounding k by the lengths; the nine lengths / masks of "
+        "chunk_by_slices (pad amounts, chunk lengths, kept elements, left/right buffer positions, the reflect tail "
+        "source/target, kept positions), extracted as min/max-linear terms over (start, end, len, t), agree with the "
+        "per-sequence pad-and-slice rule at every point of a finite grid; handlers around the validation helpers catch "
+        "the exception type the helper raises. Necessary conditions of C09 "
         "('any size for constant and replicate'); equality with per-sequence pad-and-slice is not decided."),
     level_note="Trusted: python ast; torch.rand_like in [0,1); broadcasting semantics. F16 (replicate pad larger than the "
-               "time dimension raised RuntimeError) was found by G23 and repaired.",
-    technique="static analysis: index-range extent/cover analysis with guard dominance, literal-table agreement, argument binding, eval-path identity",
+               "time dimension raised RuntimeError) was found by G23 and repaired; F20 (RandomShift rejected the documented pair of "
+               "proportions: handler caught TypeError, helper raises ValueError) by G25 and repaired.",
+    technique="static analysis: index-range extent/cover analysis with guard dominance, min/max-linear term extraction compared with the specification over a finite grid, handler/raiser type agreement, literal-table agreement, argument binding, eval-path identity",
     design_ref="DESIGN.md section 4 C09, section 3 G23",
 )
